@@ -94,7 +94,11 @@ class World(object):
                 os.chmod(p, nd.get('m', 0o755))
             elif t == 'f':
                 c = nd.get('c', '')
+                if nd.get('sub') and isinstance(c, str):
+                    c = c.replace('@@R@@', R)
                 data = b(c) if isinstance(c, str) else bytes(c)
+                if nd.get('hex'):
+                    data = bytes.fromhex(nd['hex'])
                 fd = os.open(p, os.O_WRONLY | os.O_CREAT | os.O_TRUNC, 0o600)
                 try:
                     os.write(fd, data)
